@@ -234,8 +234,12 @@ def latest_cases(chk, drv, work):
         PW = rng.choice(proc_grids(4))
         PR_n = rng.choice([1, 2, 3, 4])
         npts = [max(n, 4) for n in npts]
+        if it % 2 == 1:
+            npts = [npts[0]] * 4
         times = sorted(set(rng.choice([rng.randrange(10 ** k, 10 ** (k + 1)) for k in range(6)] + [0, 9, 10, 99999, 100000, 999999])
-                           for _ in range(rng.randint(2, 6))))
+                           for _ in range(rng.randint(2, 6) if it % 3 else 1)))      # every third folder holds ONE checkpoint
+        if len(times) == 1 and times[0] == 0:
+            times = [rng.choice([7, 120, 4500])]
         rng.shuffle(times)
         want_time = rng.choice([None, None, rng.choice(times)])
         layname = rng.choice(sorted(STD4))
@@ -283,6 +287,16 @@ def latest_cases(chk, drv, work):
             grid.loadFromFile(folder, None, 'aux')
             L = grid.getLayout(grid.currentLayout)
             out['aux'] = (np.array(grid.getAllData(), copy=True), tuple(L.dims_order), [int(x) for x in L.starts], [int(x) for x in L.ends])
+            # a grid that is NOT in the recorded layout asks for the file: refused, or (if accepted) the block of the global field in
+            # the grid's own layout - never the other layout's data under this layout's name
+            other = [n for n in sorted(STD4) if n != layname][it % 2]
+            grid.setLayout(other)
+            L = grid.getLayout(other)
+            try:
+                grid.loadFromFile(folder, max(times))
+                out['wrong_layout'] = (other, np.array(grid.getAllData(), copy=True), tuple(L.dims_order), [int(x) for x in L.starts], [int(x) for x in L.ends])
+            except Exception as e:  # noqa: BLE001
+                out['wrong_layout'] = (other, type(e).__name__)
             return out
         r = lu.run_ranks(PR_n, restart)
         if not r.ok:
@@ -314,6 +328,15 @@ def latest_cases(chk, drv, work):
                 chk.fail('C18:latest-by-name', 'loadFromFile(folder, None, "aux") does not load the latest checkpoint of that name',
                          dict(case, rank=ri, aux_times=aux_times))
                 break
+        for ri, o in enumerate(r.values()):
+            wl = o['wrong_layout']
+            if len(wl) > 2:
+                other, blk, order, st, en = wl
+                wa = np.transpose(base + max(times), order)[tuple(slice(a, b) for a, b in zip(st, en))]
+                if blk.shape != wa.shape or not same_bits(blk, np.ascontiguousarray(wa)):
+                    chk.fail('C18:load-other-layout', 'loadFromFile into a grid in layout %s accepted a checkpoint recorded in layout %s and left data that '
+                             'is not the global field in the grid\'s layout' % (other, layname), dict(case, rank=ri, grid_layout=other))
+                    break
         # correspondence: names and latest
         mo = drv.call({'op': 'names', 'folder': folder, 'conv': 'grid', 'times': times})
         real = sorted(x for x in os.listdir(folder) if x.startswith('grid_'))
@@ -380,6 +403,12 @@ def constants_cases(chk, drv, work):
         items = list(base_items)
         if it % 4 == 1:
             items.append(("CN0", rng.choice([0.5, 0.992378037, 1.25])))          # an explicitly given CN0 is a constant like any other
+        if it % 3 == 2:
+            # other spellings of the same expressions (decimal literals without a leading / trailing digit, parentheses, other operator order)
+            alt = {"deltaRN0": rng.choice(["2.0*deltaRTe", ".5*4.0*deltaRTe", "2.*deltaRTe", "(deltaRTe+deltaRTe)", "deltaRTe/.5"]),
+                   "deltaR": rng.choice(["4.0*deltaRN0/deltaRTi", "deltaRN0/deltaRTi*4", "(4.0*deltaRN0)/(deltaRTi)", "deltaRN0/(.25*deltaRTi)"]),
+                   "vMin": rng.choice(["-vMax", "-1*vMax", "0-vMax", "-(vMax)"]), "zMax": rng.choice(["R0*2*pi", "2*pi*R0", "R0*(pi+pi)", "pi*R0/.5"])}
+            items = [(k, alt.get(k, v)) for k, v in items]
         rng.shuffle(items)
         if it % 5 == 0:
             # vary the values, keep the dependency structure
@@ -409,7 +438,7 @@ def constants_cases(chk, drv, work):
             chk.fail('C18:constants-expr', 'a symbolic entry of the parameter file does not equal its expression evaluated with the values of the file',
                      {'order': [k for k, _ in items], 'values': {k: v for k, v in items if isinstance(v, float)}},
                      expected={k: env[k] for k in badk}, actual={k: got.get(k) for k in badk})
-        if it % 5 != 0:
+        if it % 5 != 0 and it % 3 != 2:
             refc = dict(ref, CN0=given['CN0']) if 'CN0' in given else ref
             if got != refc:
                 bad = sorted(k for k in refc if got.get(k) != refc[k])
